@@ -714,7 +714,7 @@ func (p *Parameters) ReadFrom(r io.Reader) (n int64, err error) {
 		bytes := make([]byte, size)
 
 		var inc int
-		if inc, err = r.Read(bytes); err != nil {
+		if inc, err = io.ReadFull(r, bytes); err != nil {
 			return n + int64(inc), fmt.Errorf("io.Reader.Read: %w", err)
 		}
 		return n + int64(inc), p.UnmarshalJSON(bytes)
